@@ -66,6 +66,9 @@ def run(tier):
         plist.append({"name": "residue/%d" % i, "steps": [("snip", feat_residue.program(r6.fork(str(i))))], "mods": []})
     for name, src in feat_scope.capture_limit_programs():
         plist.append({"name": name, "steps": [("snip", src)], "mods": [], "budget": 3000000})
+    rfc = ck.rng.fork("finallycapture")
+    for i in range(250 if quick else 8000 * common.TS):
+        plist.append({"name": "finallycapture/%d" % i, "steps": [("snip", feat_scope.finally_capture_program(rfc.fork(str(i))))], "mods": []})
     base = {}
 
     from ..gen import feat_fiber as _ff
